@@ -340,3 +340,102 @@ theorem step_final_not_reading (cfg : CCfg) (c : Conn) (e : Ev) (he : e.final = 
   · rw [step_settled cfg c e hf]; exact hf
 
 end SquidModel.Robust
+
+/-! ### the connection's parser state is C21's incremental parser -/
+
+namespace SquidModel.Robust
+open SquidModel SquidModel.Http1
+
+/-- the relation between the connection and C21's `Http1.Conn` after the same reads -/
+structure Sim (c : Conn) (F : Http1.Conn) : Prop where
+  st : c.st = F.st
+  rd : c.fate = .reading → c.inBuf = c.st.buf ∧ F.st.stage ≠ .done
+  done : c.fate ≠ .reading → F.st.stage = .done
+  len : c.inBuf.length ≤ F.fed
+  noEof : c.eofSeen = false
+
+theorem parseRequests_noEof (cfg : CCfg) (c : Conn) (hne : c.inBuf.isEmpty = false) (he : c.eofSeen = false) :
+    parseRequests cfg c = parseOne cfg c := by
+  unfold parseRequests
+  simp only [hne, Bool.false_eq_true, if_false]
+  have : (parseOne cfg c).eofSeen = false := by rw [parseOne_eofSeen]; exact he
+  simp only [this, Bool.false_eq_true, and_false, if_false]
+
+/-- `parseOne` without its two assertion branches (they cannot be taken) -/
+theorem parseOne_eq (cfg : CCfg) (hl : 2 ≤ cfg.p.limit) (c : Conn) :
+    parseOne cfg c =
+      if (Http1.parse cfg.p c.st c.inBuf).stage ≠ .done then
+        { c with st := Http1.parse cfg.p c.st c.inBuf, inBuf := (Http1.parse cfg.p c.st c.inBuf).buf }
+      else if (Http1.parse cfg.p c.st c.inBuf).status = 200 then
+        { c with st := Http1.parse cfg.p c.st c.inBuf, inBuf := (Http1.parse cfg.p c.st c.inBuf).buf, fate := .handed }
+      else { c with st := Http1.parse cfg.p c.st c.inBuf, inBuf := [], fate := .replied (Http1.parse cfg.p c.st c.inBuf).status } := by
+  unfold parseOne
+  have hle := parse_buf_le cfg.p c.st c.inBuf
+  have hgrow : ¬ (Http1.parse cfg.p c.st c.inBuf).buf.length > c.inBuf.length := by omega
+  simp only [hgrow, if_false]
+  by_cases hst : (Http1.parse cfg.p c.st c.inBuf).stage ≠ .done
+  · rw [if_pos hst, if_pos hst, if_pos (needMore_below_limit cfg.p hl c.st c.inBuf hst)]
+  · rw [if_neg hst, if_neg hst]
+
+theorem sim_data (cfg : CCfg) (hl : 2 ≤ cfg.p.limit) (c : Conn) (F : Http1.Conn) (seg : Bytes) (h : Sim c F)
+    (hne : seg ≠ []) (hfit : F.fed + seg.length ≤ cfg.bufMax) :
+    Sim (step cfg c (.data seg)) (Http1.feed cfg.p F seg) := by
+  by_cases hf : c.fate = .reading
+  · obtain ⟨hbuf, hnd⟩ := h.rd hf
+    have hlen := h.len
+    have h1 : ¬ c.inBuf.length ≥ cfg.bufMax := by
+      have : 0 < seg.length := List.length_pos_iff.mpr hne
+      omega
+    have htake : seg.take (cfg.bufMax - c.inBuf.length) = seg := List.take_of_length_le (by omega)
+    have h2 : ¬ (seg.isEmpty = true) := by simpa using hne
+    have hstep : step cfg c (.data seg) = parseOne cfg { c with inBuf := c.inBuf ++ seg } := by
+      simp only [step, hf, ne_eq, not_true_eq_false, if_false, h1, htake, h2]
+      exact parseRequests_noEof cfg _ (by simp [hne]) h.noEof
+    rw [hstep, parseOne_eq cfg hl]
+    simp only [Http1.feed, hnd, if_false]
+    have hle := parse_buf_le cfg.p c.st (c.inBuf ++ seg)
+    have hsame : Http1.parse cfg.p F.st (F.st.buf ++ seg) = Http1.parse cfg.p c.st (c.inBuf ++ seg) := by
+      rw [← h.st, ← hbuf]
+    rw [hsame]
+    simp only [List.length_append] at hle
+    by_cases hst : (Http1.parse cfg.p c.st (c.inBuf ++ seg)).stage ≠ .done
+    · rw [if_pos hst]
+      exact ⟨rfl, fun _ => ⟨rfl, hst⟩, fun hc => absurd hf hc, (by simp only [List.length_append]; omega), h.noEof⟩
+    · rw [if_neg hst]
+      have hdone : (Http1.parse cfg.p c.st (c.inBuf ++ seg)).stage = .done := by simpa using hst
+      by_cases hs : (Http1.parse cfg.p c.st (c.inBuf ++ seg)).status = 200
+      · rw [if_pos hs]
+        exact ⟨rfl, (fun hc => by cases hc), fun _ => hdone, (by simp only [List.length_append]; omega), h.noEof⟩
+      · rw [if_neg hs]
+        exact ⟨rfl, (fun hc => by cases hc), fun _ => hdone, (by simp), h.noEof⟩
+  · have hd := h.done hf
+    rw [step_settled cfg c _ hf]
+    simp only [Http1.feed, hd, if_true]
+    exact h
+
+/-- **the connection runs C21's parser**: after any sequence of non-empty reads that fits the connection buffer, the parser object
+of the connection is exactly `Http1.feedAll` of the C21 model — so C21's segmentation-independence theorems speak about connections -/
+theorem run_data_is_feedAll (cfg : CCfg) (hl : 2 ≤ cfg.p.limit) (segs : List Bytes) (hne : ∀ s ∈ segs, s ≠ [])
+    (hfit : segs.flatten.length ≤ cfg.bufMax) :
+    (run cfg (segs.map .data)).st = (Http1.feedAll cfg.p segs).st := by
+  unfold run Http1.feedAll
+  have key : ∀ (segs : List Bytes) (c : Conn) (F : Http1.Conn), Sim c F → (∀ s ∈ segs, s ≠ []) →
+      F.fed + segs.flatten.length ≤ cfg.bufMax →
+      Sim ((segs.map Ev.data).foldl (step cfg) c) (segs.foldl (Http1.feed cfg.p) F) := by
+    intro segs
+    induction segs with
+    | nil => intro c F h _ _; exact h
+    | cons s rest ih =>
+      intro c F h hne hfit
+      simp only [List.map_cons, List.foldl_cons]
+      simp only [List.flatten_cons, List.length_append] at hfit
+      have hs := sim_data cfg hl c F s h (hne s List.mem_cons_self) (by omega)
+      apply ih _ _ hs (fun x hx => hne x (List.mem_cons_of_mem _ hx))
+      have hfed : (Http1.feed cfg.p F s).fed ≤ F.fed + s.length := by
+        unfold Http1.feed; split <;> simp
+      omega
+  have h0 : Sim ({} : Conn) ({} : Http1.Conn) :=
+    ⟨rfl, fun _ => ⟨rfl, by decide⟩, fun hc => absurd rfl hc, by simp, rfl⟩
+  exact (key segs {} {} h0 hne (by simpa using hfit)).st
+
+end SquidModel.Robust
